@@ -10,7 +10,7 @@ CLAIMED = {
  "C03": ("lock/trylock/unlock decision tables over the atomic counter's old value, memory orders, waker loop (yield not spin, exit only after count wakes, node hand-back), single consumer and counter-writer tables",
          "enumerated forced-branch tables over atomic results + CFG dominance / who-may-call rules on fiber_mutex.c and the shared waker"),
  "C04": ("detach_state compare-exchange-only writer table; transition table (completed NONE->WFJ; join NONE->WTJ, WFJ->WTJ; tryjoin WFJ->WTJ; detach NONE->DET, WFJ->DET) checked per function over every sequence of states its accesses can observe (legal transition only; park / take+READY+schedule / error exactly as specified); result store/copy/read order rules; no touch of the joined fiber after waking it; clear_or_wait loop shape",
-         "enumerated forced-branch tables over compare-exchange outcomes and observed-state sequences + CFG dominance / no-touch rules on fiber.c"),
+         "concrete interpretation of every CFG path of the four protocol functions for every chain of observed states (compare-exchange modelled on the expected local), checked against the transition table; static forced-branch tables as fallback; CFG dominance / no-touch rules on fiber.c"),
  "C05": ("register-before-enqueue order, mutex released only through the deferred slot, re-lock on every return; signal/broadcast lock pairing, claim tables and wake counts; single-consumer and counter-writer tables",
          "CFG dominance / lock-pair rules + enumerated claim tables on fiber_cond.c and the enqueue helper"),
  "C06": ("wait/trywait/post decision tables over the counter value and wake result, no increment reachable at INT_MAX (also on the retry path of a failed compare-exchange), increment-after-wake order, no exit without wake-or-increment, counter-writer table, waker count semantics",
